@@ -11,25 +11,25 @@ use std::sync::{Arc, RwLock};
 pub fn from_config_ids(n: u64) {
     let me = vs::u64();
     vs::assume(me >= 1 && me <= n);
-    let mut peers = Vec::new();
-    let mut i = 1u64;
-    while i <= n { if i != me { peers.push(if i == 1 { "h1:1".to_string() } else if i == 2 { "h2:1".to_string() } else if i == 3 { "h3:1".to_string() } else if i == 4 { "h4:1".to_string() } else { "h5:1".to_string() }); } i += 1; }
+    // the peer list is the same for every node: n-1 addresses "a","b",... = the other members in id order
     let mut cfg = ReplicationConfig::default();
     cfg.enabled = true;
     cfg.replica_id = me;
-    cfg.peers = peers;
+    cfg.peers = if n == 3 { vec!["a".to_string(), "b".to_string()] } else { vec!["a".to_string(), "b".to_string(), "c".to_string(), "d".to_string()] };
     let ring = Arc::new(RwLock::new(HashRing::new(Vec::new(), 1, 1)));
     let r = GossipRouter::from_config(&cfg, ring);
     vcheck!(r.get_peer_address(ReplicaId(me)).is_none(), "config:a peer is given this node's own id");
     let mut j = 1u64;
+    let mut all = true;
     while j <= n {
         if j != me {
-            let want: &str = if j == 1 { "h1:1" } else if j == 2 { "h2:1" } else if j == 3 { "h3:1" } else if j == 4 { "h4:1" } else { "h5:1" };
-            let got = r.get_peer_address(ReplicaId(j));
-            vcheck!(match got { Some(a) => a.as_str() == want, None => false }, "config:peer id does not map to that peer's address");
+            let idx = if j < me { j - 1 } else { j - 2 };
+            let ok = match r.get_peer_address(ReplicaId(j)) { Some(a) => a.as_bytes().len() == 1 && a.as_bytes()[0] == b'a' + idx as u8, None => false };
+            if !ok { all = false; }
         }
         j += 1;
     }
+    vcheck!(all, "config:a member's id does not map to that member's address");
     std::mem::forget((r, cfg));
 }
 
@@ -39,6 +39,7 @@ pub fn twin() {
     cfg.peers = vec!["h1:1".to_string()];
     let ring = Arc::new(RwLock::new(HashRing::new(Vec::new(), 1, 1)));
     let r = GossipRouter::from_config(&cfg, ring);
-    vcheck!(r.get_peer_address(ReplicaId(1)).is_none(), "twin:reachable");
+    let got = r.get_peer_address(ReplicaId(1)).is_some();
+    vcheck!(!got, "twin:reachable");
     std::mem::forget((r, cfg));
 }
